@@ -1466,9 +1466,9 @@ type layoutFamily struct {
 
 func layoutFamilies(thorough bool) []layoutFamily {
 	if thorough {
-		return []layoutFamily{{3, 2, true, false}, {2, 4, true, false}, {3, 3, true, false}, {2, 5, true, true}}
+		return []layoutFamily{{3, 2, true, false}, {2, 3, true, false}, {2, 4, true, false}, {3, 3, true, false}, {2, 5, true, true}}
 	}
-	return []layoutFamily{{3, 2, true, false}, {2, 4, false, false}}
+	return []layoutFamily{{3, 2, true, false}, {2, 3, true, false}}
 }
 
 func replayLayout(cs Case) (bool, string) {
@@ -1614,7 +1614,7 @@ func hasWrite(h []string) bool {
 func TestCheck(t *testing.T) {
 	vlib.Main(t, &vlib.Check{
 		ID: "C38", Level: "exploration",
-		Rule: "(A, layout family, visited first) a layout gives each of S series a slot subset of N slots AND a split of that subset into consecutive blocks; EVERY (subset, split) pair is enumerated, (3^N+1)/2 per series (quick: 3 series x 2 slots = 125 layouts and 2 series x 4 slots = 41^2 = 1681 layouts; thorough: also 3 series x 3 slots = 14^3 = 2744 layouts and, visited after the history family, 2 series x 5 slots = 122^2 = 14884 layouts; series m,t=a < m,t=b < m,t=c in TSM key order, float field v, value = 1000+10*slot+series). So a series has 1..N blocks of 1..N points, blocks may span slots without a point, and the series of one file have different extents in every key order (late-only series before early-only series and vice versa). The layout is written block by block with the real TSMWriter as the ONLY TSM file of a fresh tsm1.Engine; per layout Engine.Export(start,end) runs for EVERY pair of slot boundaries start <= end (N=4: 10 non-empty ranges + 5 empty ranges between neighbouring slots - quick leaves the 5 empty ones to the N=2 family; N=2: 3+3; N=3: 6+4; N=5: 15+6), i.e. ranges covering the file, cutting through it on the left/right/both sides, lying strictly inside one block, lying in a gap of the file and lying outside it; every *.tsm entry of the tar archive is read with the real TSMReader and compared with the layout at POINT granularity: every written point with start <= t <= end must be present once with its value (missing-points / duplicated-points / wrong-values), every other point must be absent (extra point whose block intersects the range = the registered block-granularity finding export/extra-points/tombstones=false,partial=true; extra point of a block outside the range, or a point never written, have their own signatures), Export must not fail. non-trivial layouts = at least 2 series with points and at least one range that only partially overlaps the file (the file is rewritten block by block). " +
+		Rule: "(A, layout family, visited first) a layout gives each of S series a slot subset of N slots AND a split of that subset into consecutive blocks; EVERY (subset, split) pair is enumerated, (3^N+1)/2 per series (quick: 3 series x 2 slots = 5^3 = 125 layouts and 2 series x 3 slots = 14^2 = 196 layouts; thorough: also 2 series x 4 slots = 41^2 = 1681 layouts, 3 series x 3 slots = 14^3 = 2744 layouts and, visited after the history family, 2 series x 5 slots = 122^2 = 14884 layouts; series m,t=a < m,t=b < m,t=c in TSM key order, float field v, value = 1000+10*slot+series). So a series has 1..N blocks of 1..N points, blocks may span slots without a point, and the series of one file have different extents in every key order (late-only series before early-only series and vice versa). The layout is written block by block with the real TSMWriter as the ONLY TSM file of a fresh tsm1.Engine; per layout Engine.Export(start,end) runs for EVERY pair of slot boundaries start <= end (N=2: 3 non-empty ranges + 3 empty ranges between neighbouring slots; N=3: 6+4; N=4: 10+5; N=5: 15+6), i.e. ranges covering the file, cutting through it on the left/right/both sides, lying strictly inside one block, lying in a gap of the file and lying outside it; every *.tsm entry of the tar archive is read with the real TSMReader and compared with the layout at POINT granularity: every written point with start <= t <= end must be present once with its value (missing-points / duplicated-points / wrong-values), every other point must be absent (extra point whose block intersects the range = the registered block-granularity finding export/extra-points/tombstones=false,partial=true; extra point of a block outside the range, or a point never written, have their own signatures), Export must not fail. non-trivial layouts = at least 2 series with points and at least one range that only partially overlaps the file (the file is rewritten block by block). " +
 			"(B, history family) every history of length 1..3 (quick: 399 histories) resp. 1..4 plus every history of length 5 over {wL,wH,dM,s,c} that starts with a write (thorough: 2800 + 1250 histories) over the 7 operations {wL: write A@slots0,1 + B@slot0; wH: write A@slots2,3 + B@slot3; wA: (over)write A@slots0-3; dM: delete [slot1,slot2] of all series; dB: delete series B; s: snapshot cache->TSM; c: snapshot + full compaction} " +
 			"on a fresh bucket (series m,t=a and m,t=b, float field v, 4 time slots in one shard, value = 100*step+10*slot+series so every write is distinguishable; blocks of at most 2 points, so wA gives series A two blocks per file); per history: (1) BackupShard(since=0) -> RestoreShard into an empty shard, reads compared; (2) BackupShard(since) for since = T(j), T(j)+30min, j=0..n+1 with file mtimes set by os.Chtimes to the step of their last content change, archive must contain every later-changed *.tsm/*.tombstone file byte-identically; (2b, sub-second placements) every tracked file F in turn gets the mtime T = T(step of F) + d for d in {0, 1ns, 500ms, 999999999ns} (os.Chtimes with nanosecond precision, read back with os.Stat; the other files keep their whole-hour step time) and BackupShard(since) runs for since in {T-1s, T-1ms, T-1ns, T, T+1ns, T+1s} (24 backups per file): the archive must contain a tracked file, byte-identically, iff its mtime is after since; (3) ExportShard for every one of the 10 ranges between slot boundaries (quick: the 6 ranges all, first half, second half, middle, first slot, last slot) -> ImportShard into an empty shard, reads compared with the source points in the range. " +
 			"non-trivial = histories that contain a write (a shard exists); distinct by construction.",
@@ -1633,7 +1633,7 @@ func TestCheck(t *testing.T) {
 			"the source shard's compaction PLANNER is replaced by one that never plans (Engine.CompactionPlan is an exported injection point): a delete starts the shard's background compaction goroutine although the fixture disabled compactions, and it would compact tombstoned files one wall-clock second later, in the middle of the checks. Compactions are the explicit 'c' operations",
 			"if the shard directory nevertheless changes while an incremental backup runs, that backup is not judged (outcome class directory-changed-during-backup)",
 		},
-		QuickBudgetS: 80, ThoroughBudgetS: 840,
+		QuickBudgetS: 80, ThoroughBudgetS: 800,
 		Run: func(c *vlib.Ctx) {
 			defer func(old uint64) { tsi1.DefaultPartitionN = old }(tsi1.DefaultPartitionN)
 			tsi1.DefaultPartitionN = 1
@@ -1683,11 +1683,9 @@ func TestCheck(t *testing.T) {
 				return true
 			}
 			// small layout families first (simplest: one file, no history), the big thorough one after the histories
-			t0 := time.Now()
 			if !runLayouts(false) {
 				return
 			}
-			c.Logf("shard %d: early layout families done after %v (diagnostic only)", c.Shard, time.Since(t0).Round(time.Millisecond))
 			for _, fm := range fams {
 				complete := histories(fm.d, fm.alphabet, fm.first, func(h []string) bool {
 					idx++
